@@ -123,9 +123,9 @@ class Dispatch:
         self.K = K
         repo = ctx.repo
         self.fi = repo.func(NET_MOD, "Network.perform_action")
-        if len(self.fi.params) != 3:
+        if len(self.fi.params) < 3:
             raise AnalysisError("Network.perform_action no longer takes (self, state, action)")
-        p_self, p_state, p_action = self.fi.params
+        p_self, p_state, p_action = self.fi.params[:3]
         self.ip = Interp(repo, ctx.types, param_types={p_self: "Network", p_state: "State"})
         self.action = ("obj", K, "A")
         self.summary = self.ip.run(self.fi, {p_action: self.action})
